@@ -254,8 +254,11 @@ pub fn judge(c: &Case, rec: &mut Rec) -> Verdict {
     // requested fsync: every regular destination file needs an fsync that succeeded
     if p2.inv.fsync {
         for m in p2.mapped.iter().filter(|m| m.kind == K::F) {
+            // (the destination may be spelled through a symlinked directory: compare resolved paths)
             let abs = join(&root2, &m.dst);
-            let synced = out.log.iter().any(|e| e.sys == Sys::Fsync && e.ok() && e.path.as_deref() == Some(abs.as_slice()));
+            let synced = out.log.iter().any(|e| {
+                e.sys == Sys::Fsync && e.ok() && e.path.as_ref().map(|p| p.as_slice() == abs.as_slice() || super::c03::real_rel(&root2, p).as_deref() == Some(m.dst.as_slice())).unwrap_or(false)
+            });
             if !synced {
                 diffs.push(format!("fsync: no successful fsync on {}", esc(&m.dst)));
             }
